@@ -9,6 +9,7 @@ from ..decide import Runs, need_ge0, need_eq0, definite, soft
 from ..report import Ob, PROVED, REFUTED, UNDECIDED, func_where, ASSUMPTIONS, Failure
 from ..model import norm_text, AnalysisError
 from . import common
+from .. import seqops
 from .decode import DecodeUnits, codec
 from .vbs import ReaderRuns
 
@@ -44,6 +45,7 @@ def check(prog, res, tier):
             enc = SymV('ctor_encoding', 'codec')
             it.binds[('truth', 'ctor_encoding')] = True
             cfg = DictV(desc='ctor_iso_config', open_=True)
+            cfg.items['2'] = DictV(items={'field_type': seqops.lit('LLVAR'), 'field_length': IntV(0)}, desc='entry')   # a non-empty configuration
             blocked = SymV('blocked', 'bool')
             obj = it.instantiate(ci, [f], {'encoding': enc, 'iso_config': cfg, 'blocked': blocked}, None)
             it.user.update(enc=enc, cfg=cfg, obj=obj, file=f)
@@ -76,6 +78,22 @@ def check(prog, res, tier):
         res.add(runs.judge('C06.a', f'{ci.name}.{meth} passes the instance\'s own encoding and field configuration to {callee}; '
                                     f'blocking options reach the base constructor', func_where(mfi),
                            f'{callee}(..., encoding=self.encoding, iso_config=self.iso_config)', chk, rule=f'C06.a.{ci.name}'))
+
+    # ---- C06.b the record handed out by a reader that uses the packaged configuration is its own object
+    rci = prog.cls('mciipm.IpmReader')
+    rnfi = rci.lookup('__next__')[1]
+
+    def loads_fresh(it, fi, args, kwargs, node, self_obj):
+        return DictV(open_=True, desc='message')
+
+    def entry_default(it):
+        obj = it.instantiate(rci, [it.new_file('f')], {'blocked': SymV('blocked', 'bool')}, None)
+        return it.call_function(rnfi, [], {}, self_obj=obj)
+    runs_def = Runs(prog, entry_default, summaries={'iso8583.loads': loads_fresh,
+                                                    'mciipm.VbsReader.__next__': lambda it, fi, a, k, n, so: it.sym_bytes('vbs_record', lo=1)}, res=res)
+    for ob in common.state_obs(res, 'C06.b', func_where(rnfi), [('IpmReader.__next__ (packaged configuration)', runs_def)],
+                               'reading records'):
+        res.add(ob)
 
     # ---- C06.c every write encodes the message it is given, as it is at that moment
     wci = prog.cls('mciipm.IpmWriter')
